@@ -27,6 +27,8 @@ RULE = ("(n, n_chunks) grids: exhaustive for small n, boundary + random chunk co
         "assemblies: real calculate/save/load/concat/to_dense with a stub metric encoding (i,j), chunk files "
         "shuffled with repeats, one non-empty chunk dropped for the refusal; hand-built matrices with repeated/missing pairs; "
         "a few larger matrices (n 12-30, chunks starting mid-row) and one single-chunk matrix with n=300 (indices > 255 through save/load); "
+        "matrix sizes straddling the integer-width boundaries (n in 127,128,129,200,255,256,257): single chunk save->file values == memory->load->to_dense "
+        "== in-memory dense, three sparse files with entries at the highest indices concatenated, n=129 in two chunks; "
         "repeated chunk indices are loaded either as separate objects or as ONE shared object; "
         "real CLI main() per chunk on a real (partly unobserved) Screen + SparseDrugComboMCMCSample holder files -- some samples identical so that "
         "real distances are exactly 0.0 -- assembled in shuffled order with repeats; "
@@ -297,6 +299,102 @@ def case_assembly(dc, case, res, tmp, tie=None, tie_calc=False):
     for fn in files.values():
         os.unlink(fn)
     return len(nonempty)
+
+
+def file_matches_memory(m, fn):
+    """the VALUES of the h5 datasets (whatever their dtype) are the filled prefix of the in-memory arrays; returns a description or None"""
+    import h5py
+    cur = int(m.current_index)
+    with h5py.File(fn, "r") as f:
+        for key, arr in (("row_indices", m.row_indices), ("col_indices", m.col_indices)):
+            got = [int(x) for x in f[key][:]]
+            if got != [int(x) for x in arr[:cur]]:
+                bad = [i for i, (a_, b_) in enumerate(zip(got, arr[:cur])) if a_ != int(b_)]
+                return {"dataset": key, "dtype": str(f[key].dtype), "first_bad": bad[:1], "file": got[bad[0]] if bad else len(got),
+                        "memory": int(arr[bad[0]]) if bad else cur}
+        vals = f["values"][:]
+        if vals.shape != (cur,) or not np.array_equal(np.asarray(vals, dtype=float), m.values[:cur]):
+            return {"dataset": "values", "dtype": str(f["values"].dtype)}
+        if int(f["size"][0]) != int(m.size):
+            return {"dataset": "size", "file": int(f["size"][0]), "memory": int(m.size)}
+    return None
+
+
+def case_boundary(dc, case, res, tmp):
+    """class size-boundaries x dtype: matrix sizes straddling the integer-width boundaries 127/128, 255/256 (n(n-1)/2 <= 33k pairs).
+    mode full  : calculate each of k chunks (stub metric), save, check the file against memory, load, concat, to_dense == the dense matrix
+                 of the single in-memory computation, symmetric, zero diagonal.
+    mode sparse: three hand-filled partial matrices whose entries sit at the largest row / column indices (and at 0, 126..129, 254..257
+                 where they exist), one file given twice: save, check, load, concat -> exactly the union of the entries, each once, with its
+                 value; the incomplete result refuses to_dense.  (A complete multi-chunk concat costs O(pairs^2) in the real combine.)"""
+    n, k, mode = case["n"], case["n_chunks"], case["mode"]
+    N = n * (n - 1) // 2
+    try:
+        if mode == "full":
+            thetas, metric = StubThetas(n), StubMetric(7)
+            mem = [dc.calculate_pairwise_distance_matrix_on_predictions(thetas, metric, None, c, k) for c in range(k)]
+            order = case.get("order") or list(range(k))[::-1]
+        else:
+            hot = sorted(set(x for x in (0, 1, 126, 127, 128, 129, 130, 199, 200, 254, 255, 256, 257, n - 2, n - 1) if 0 <= x < n))
+            pairs = [(i, j) for i in hot for j in hot if j < i]
+            mem = []
+            for c in range(3):
+                m = dc.ChunkedDistanceMatrix(n)
+                for (i, j) in pairs[c::3]:
+                    m.add_value(i, j, float(stub_metric(7, i, j)))
+                mem.append(m)
+            order = [2, 0, 1, 2]
+        files = []
+        for c, m in enumerate(mem):
+            fn = os.path.join(tmp, "b_%d.h5" % c)
+            m.save(fn)
+            files.append(fn)
+            bad = file_matches_memory(m, fn)
+            if bad:
+                res.fail("saved chunk file does not hold the indices / values of the matrix in memory", dict(case, chunk=c), bad, "file values == memory values")
+                return
+            back = dc.ChunkedDistanceMatrix.load(fn)
+            cur = int(m.current_index)
+            if int(back.current_index) != cur or [int(x) for x in back.row_indices[:cur]] != [int(x) for x in m.row_indices[:cur]] or \
+                    [int(x) for x in back.col_indices[:cur]] != [int(x) for x in m.col_indices[:cur]] or not np.array_equal(back.values[:cur], m.values[:cur]):
+                res.fail("loaded chunk differs from the saved one", dict(case, chunk=c), {"entries": int(back.current_index)}, "identical indices and values")
+                return
+        cat = dc.ChunkedDistanceMatrix.concat([dc.ChunkedDistanceMatrix.load(files[c]) for c in order])
+        got = sorted((int(cat.row_indices[i]), int(cat.col_indices[i]), float(cat.values[i])) for i in range(cat.current_index))
+        if mode == "full":
+            want_e = [(i, j, float(stub_metric(7, i, j))) for i in range(n) for j in range(i)]
+        else:
+            want_e = sorted((i, j, float(stub_metric(7, i, j))) for (i, j) in pairs)
+        if got != want_e:
+            res.fail("matrix assembled from loaded chunk files does not hold every supplied pair exactly once with its value", case,
+                     {"entries": len(got), "first_difference": next(([list(a_), list(b_)] for a_, b_ in zip(got, want_e) if a_ != b_), None)},
+                     {"entries": len(want_e)})
+            return
+        if mode == "full":
+            dense = cat.to_dense()
+            single = dc.calculate_pairwise_distance_matrix_on_predictions(StubThetas(n), StubMetric(7), None, 0, 1).to_dense()   # never saved
+            ii, jj = np.tril_indices(n, -1)
+            want = np.zeros((n, n))
+            want[ii, jj] = want[jj, ii] = [stub_metric(7, int(a_), int(b_)) for a_, b_ in zip(ii, jj)]
+            if dense.shape != (n, n) or not np.array_equal(dense, single) or not np.array_equal(dense, want):
+                res.fail("matrix assembled from loaded chunk files differs from the single in-memory computation", case,
+                         {"differing_cells": int(np.sum(dense != single)) if dense.shape == single.shape else str(dense.shape)}, "equal")
+            elif not np.array_equal(dense, dense.T) or np.any(np.diag(dense) != 0):
+                res.fail("assembled matrix not symmetric / zero-diagonal", case, {"diag_nonzero": int(np.sum(np.diag(dense) != 0))}, "symmetric, zero diagonal")
+        elif len(want_e) < N:
+            try:
+                cat.to_dense()
+                res.fail("incomplete matrix densified", case, "to_dense returned", "ValueError")
+            except ValueError:
+                pass
+        res.traces_validated += 1
+    except Exception as e:  # noqa
+        res.fail("save / load / concat / to_dense raises at this matrix size", case, "%s: %s" % (type(e).__name__, e), "no exception")
+    finally:
+        for c in range(max(k, 3)):
+            fn = os.path.join(tmp, "b_%d.h5" % c)
+            if os.path.exists(fn):
+                os.unlink(fn)
 
 
 def case_handbuilt(dc, case, res, tmp, tie=None):
@@ -748,6 +846,18 @@ def run(ctx, res):
             res.evaluations += 1
             case_assembly(dc, case, res, tmp, None)
             res.count("assembly.big_single_chunk")
+        # ---------- B1c. class size-boundaries x dtype: sizes straddling 127/128 and 255/256 -----------------------------------
+        bcases = [{"kind": "boundary", "n": n_, "n_chunks": 1, "mode": "full"} for n_ in (127, 128, 129, 200, 255, 256, 257)]
+        bcases += [{"kind": "boundary", "n": n_, "n_chunks": 3, "mode": "sparse"} for n_ in (127, 128, 129, 200, 255, 256, 257)]
+        bcases += [{"kind": "boundary", "n": 129, "n_chunks": 2, "mode": "full", "order": [1, 0]}]
+        bcases += ctx.scale([], [{"kind": "boundary", "n": 129, "n_chunks": 3, "mode": "full", "order": [2, 0, 1, 2]},
+                                 {"kind": "boundary", "n": 200, "n_chunks": 2, "mode": "full", "order": [1, 0]}], [])
+        for case in bcases:
+            res.evaluations += 1
+            case_boundary(dc, case, res, tmp)
+            res.count("class.size-boundaries")
+            res.count("class.layout-dtype")
+            res.count("boundary.%s.n%d" % (case["mode"], case["n"]))
         # ---------- B2. hand-built matrices (repeats / missing pairs) ---------------------
         rng = ctx.subrng("hand")
         for t in range(ctx.scale(100, 800, 400)):
@@ -892,6 +1002,8 @@ def replay(ctx, case, res):
             case_assembly(dc, case, res, tmp)
         elif kind == "handbuilt":
             case_handbuilt(dc, case, res, tmp)
+        elif kind == "boundary":
+            case_boundary(dc, case, res, tmp)
         elif kind == "cli":
             case_cli(dc, case, res, tmp)
         elif kind == "metric":
